@@ -4,6 +4,7 @@
 //   exact --n 4 --alpha A3 --variants signed,fvs,iso --wtype double --out res.json
 //   exact --families wheel:5,prism:4 --alpha A2 ...
 //   exact --replay-case "n=4;e=0-1:1,...;variant=signed;wtype=double"
+#include <memory>
 #include "common/runner.hpp"
 #include "common/graphs.hpp"
 #include "common/bgl.hpp"
@@ -95,14 +96,16 @@ int main(int argc, char **argv) {
     int n = (int) A.geti("n", 0);
     std::vector<std::string> fams;
     if (A.has("families")) fams = vr::split(A.get("families"), ',');
-    uint64_t total_units = fams.empty() ? vg::num_graphs(n) : fams.size();
+    std::unique_ptr<vg::BlobUniverse> blob;
+    if (A.has("grammar")) { auto t = vr::split(A.get("grammar"), ':'); blob.reset(new vg::BlobUniverse(atoi(t[1].c_str()), atoi(t[2].c_str()))); }
+    uint64_t total_units = blob ? blob->size() : fams.empty() ? vg::num_graphs(n) : fams.size();
     int max_m = (int) A.geti("max-m", 62);
     uint64_t seed = (uint64_t) A.geti("seed", 0);
 
     auto unit_graph = [&](uint64_t u) -> vg::EdgeList {
         // seed only rotates the enumeration order
         uint64_t uu = (u + seed) % total_units;
-        return fams.empty() ? vg::graph_from_mask(n, uu) : vg::family(fams[uu]);
+        return blob ? blob->build(uu) : fams.empty() ? vg::graph_from_mask(n, uu) : vg::family(fams[uu]);
     };
     auto describe = [&](uint64_t u, uint64_t sub, uint64_t var) {
         vg::EdgeList el = unit_graph(u);
